@@ -139,6 +139,11 @@ pub fn jobs(tier: Tier) -> Vec<Job> {
     for c in &deep_blocks(spec) {
         v.push(pipeline_job("c01-depth", c, &RunCfg::parallel(2), FOCUS_VALIDATION, if tier == Tier::Quick { 4 } else { 5 }, true));
     }
+    // the "attempt started on stale state and ends at the commit head" window (findings F2, seeded
+    // C03b/C05b) at attempt granularity
+    for c in [blocks::funding_chain(spec, 2), super::c04::gate_driver(spec, false).case] {
+        v.push(pipeline_job("c01-depth", &c, &RunCfg::parallel(2), FOCUS_ATTEMPT, if tier == Tier::Quick { 4 } else { 5 }, true));
+    }
     match tier {
         Tier::Quick => {
             v.extend(sweep_jobs("c01-sweep", 2, &[SpecId::BERLIN, SpecId::CANCUN, SpecId::PRAGUE], &[1, 2], &[false, true], 1, true));
